@@ -320,6 +320,30 @@ fn run_inner(id: &str) -> Option<(bool, String)> {
             let (a, b) = interp_vs_clif(&p);
             (format!("{:?}", a) != b, format!("program with a backward jump to instruction 0: interpreter {:?}, Cranelift {}", a, b))
         }
+        "helpers-trace-printf-count" => {
+            let want = format!("bpf_trace_printf: {:#x}, {:#x}, {:#x}\n", u64::MAX, 0u64, 0u64).len() as u64;
+            let got = rbpf::helpers::bpf_trace_printf(0, 0, u64::MAX, 0, 0);
+            (got != want, format!("bpf_trace_printf(_, _, u64::MAX, 0, 0) prints {} bytes and returns {}", want, got))
+        }
+        "stack-validate-helper-call-as-entry" => {
+            fn calc(_prog: &[u8], pc: usize, _data: &mut dyn std::any::Any) -> u16 { if pc == 0 { 16 } else if pc == 6 { 32 } else { 400 } }
+            fn h(a: u64, _b: u64, _c: u64, _d: u64, _e: u64) -> u64 { a }
+            let p = prog(&[
+                i(ebpf::CALL, 0, 0, 0, 1),       // helper #1: NOT a local call, yet pc 0+1+1 = 2 becomes a "function entry"
+                i(ebpf::MOV64_REG, 6, 10, 0, 0),
+                i(ebpf::CALL, 0, 1, 0, 3),       // local call -> 6
+                i(ebpf::SUB64_REG, 6, 0, 0, 0),
+                i(ebpf::MOV64_REG, 0, 6, 0, 0),
+                i(ebpf::EXIT, 0, 0, 0, 0),
+                i(ebpf::MOV64_REG, 0, 10, 0, 0),
+                i(ebpf::EXIT, 0, 0, 0, 0),
+            ]);
+            let mut vm = rbpf::EbpfVmNoData::new(Some(&p)).unwrap();
+            vm.register_helper(1, h).unwrap();
+            vm.set_stack_usage_calculator(calc, Box::new(())).unwrap();
+            let r = vm.execute_program().ok();
+            (r != Some(16), format!("main's frame size is 16 (calculator value for entry 0): the callee's r10 is lower by {:?}", r))
+        }
         _ => return None,
     })
 }
